@@ -70,10 +70,12 @@ impl<'a> TXT<'a> {
         for char_str in &self.strings {
             let mut splited = char_str.data.splitn(2, |c| *c == b'=');
             let key = match splited.next() {
-                Some(key) => match std::str::from_utf8(key) {
+                Some(key) if !key.is_empty() => match std::str::from_utf8(key) {
                     Ok(key) => key.to_owned(),
                     Err(_) => continue,
                 },
+                // RFC 6763 6.4: strings with an empty key are ignored
+                Some(_) => continue,
                 None => continue,
             };
 
